@@ -417,6 +417,8 @@ def discharge(w, v, ob):
                 return 'class:zero-or-one-times', 'a product with a factor that is 0 or 1 (a yes/no count) cannot overflow'
             if t['binop'] == 'Sub' and _len_minus_sublen(v, a, c):
                 return 'class:len-minus-sublen', 'len(x) - len(y) where y is x trimmed / stripped (a sub-slice of x is never longer than x)'
+            if t['binop'] == 'Sub' and _len_minus_subcount(v, a, c):
+                return 'class:len-minus-subcount', 'len(x) - n where n counts elements of an iterator over x that only drops elements (n <= len(x))'
             if t['binop'] == 'Sub' and c['o'] == 'const' and c.get('int') is not None:
                 k = c['int']
                 g = _bound_guard(v, bi, a, k)
@@ -441,6 +443,10 @@ def discharge(w, v, ob):
         d6 = _first_of_nonempty(w, v, ob)
         if d6:
             return 'D6 fact', d6
+        if cat == 'index':
+            d3 = _index_len_minus_positive_count(v, bi, t)
+            if d3:
+                return 'D3', d3
         return None
     if cat == 'drain':
         # full-range drain cannot panic
@@ -590,6 +596,72 @@ def _len_minus_sublen(v, a, c):
     # `through` follows the receiver of every trimming call; Y must have been trimmed at least once and bottom out at X
     direct = v.pv.peel(v.pv.origins_operand(ya))
     return bool(X) and Y == X and direct != X
+
+
+NONINCREASING = re.compile(r'Iterator>?::(rev|take_while|skip_while|filter|filter_map|skip|take|step_by|map_while|peekable|by_ref|copied|cloned|map|enumerate|inspect)$')
+LEN_CALL = re.compile(r'::len$')
+
+
+def _len_minus_subcount(v, a, c):
+    """a = X.len(), c = the number of elements of an iterator over X that only drops or maps elements (`X.iter().rev().take_while(p).count()`): c <= a.
+    Returns the description of X, or None."""
+    def one_call(op, rx):
+        ors = v.pv.peel(v.pv.origins_operand(op))
+        if len(ors) != 1:
+            return None
+        o = strip_casts(next(iter(ors)))
+        if o[0] != 'call' or o[2] or not rx.search(callee_path(v.pv.call_term(o)) or ''):
+            return None
+        return v.pv.call_term(o)
+    lt = one_call(a, LEN_CALL)
+    ct = one_call(c, re.compile(r'Iterator>?::count$'))
+    if lt is None or ct is None or not lt['args'] or not ct['args']:
+        return None
+    X = v.pv.through(v.pv.origins_operand(lt['args'][0]), VEC_VIEW)
+    # walk the receiver chain of count() down to the iterator over the collection
+    cur = ct['args'][0]
+    for _ in range(8):
+        ors = v.pv.peel(v.pv.origins_operand(cur))
+        if len(ors) != 1:
+            return None
+        o = strip_casts(next(iter(ors)))
+        if o[0] != 'call' or o[2]:
+            return None
+        t2 = v.pv.call_term(o)
+        p2 = callee_path(t2) or ''
+        if NONINCREASING.search(p2) and t2['args']:
+            cur = t2['args'][0]
+            continue
+        if VEC_VIEW.search(p2) and t2['args']:
+            Y = v.pv.through(v.pv.origins_operand(t2['args'][0]), VEC_VIEW)
+            return v.describe_operand(lt['args'][0], 2) if (X and Y == X) else None
+        return None
+    return None
+
+
+def _index_len_minus_positive_count(v, bi, t):
+    """X[X.len() - n] with n a sub-count of X (see above) and a dominating `n > 0`: in bounds"""
+    if len(t['args']) < 2:
+        return None
+    b = v.b
+    for o in v.pv.peel(v.pv.origins_operand(t['args'][1])):
+        o = strip_casts(o)
+        if o[0] != 'binop' or not o[1][2].startswith('Sub'):
+            return None
+        rv = b.blocks[o[1][0]]['stmts'][o[1][1]]['rv']
+        X = _len_minus_subcount(v, rv['a'], rv['b'])
+        if X is None:
+            return None
+        recv = v.pv.through(v.pv.origins_operand(t['args'][0]), VEC_VIEW)
+        lt_ors = v.pv.peel(v.pv.origins_operand(rv['a']))
+        lt = v.pv.call_term(strip_casts(next(iter(lt_ors))))
+        if recv != v.pv.through(v.pv.origins_operand(lt['args'][0]), VEC_VIEW):
+            return None
+        g = _bound_guard(v, bi, rv['b'], 1)
+        if not g:
+            return None
+        return 'index len(x) - n with 1 <= n <= len(x): n counts elements of an iterator over x (%s)' % g
+    return None
 
 
 def _bound_guard(v, bi, a_operand, k):
